@@ -3,3 +3,4 @@ pub mod rng;
 pub mod driver;
 pub mod e2e;
 pub mod reserve;
+pub mod guard_common;
